@@ -870,6 +870,11 @@ def suites_for(prop, seed, tier):
         cs += [c for c in got if c.kind in kinds or c.entry in ("new", "with_values")]
     if tier != "quick" and prop in ("C01", "C02", "C03", "C04", "C05"):
         cs += [c for c in g1_exhaustive() if c.kind in kinds]
+    if prop == "C15":
+        # the statistics of the automaton restored from its own bytes are observed too
+        for c in cs:
+            if "R" not in c.ops and "N" not in c.ops:
+                c.ops += "R"
     if prop in ("C07", "C13"):
         # every search entry point (slice and byte-iterator) is also called on automata of the other
         # kind: it must panic (documented kind assertion), never loop or read out of range
